@@ -21,6 +21,10 @@ def classify(out):
         if cls == 'AttributeError' and "'NoneType' object" in msg:
             return 'observation', 'blank-dereferenced', msg
         return 'violation', cls, msg
+    from hv import e3mon
+    if cls == 'TypeError' and e3mon.SIGNATURE_RE.search(msg):
+        # a helper, threshold or form method called with arguments it does not take: the reference does not resolve
+        return 'violation', 'TypeError-signature', msg
     return 'observation', cls, msg
 
 
